@@ -52,14 +52,16 @@ def _dataclass_arguments(decorators: list[Decorator]) -> dict[str, Any]:
     return {}
 
 
-def _field_arguments(attribute: Attribute) -> dict[str, Any]:
+def _field_arguments(attribute: Attribute) -> dict[str, Any] | None:
+    # Return `None` when the attribute is not assigned a `field()` call at all:
+    # a bare `field()` has no arguments either, but it is not a default value.
     if attribute.value:
         value = attribute.value
         if isinstance(value, ExprAttribute):
             value = value.last
         if isinstance(value, ExprCall) and value.canonical_path == "dataclasses.field":
             return _expr_args(value)
-    return {}
+    return None
 
 
 @cache
@@ -103,7 +105,9 @@ def _dataclass_parameters(class_: Class) -> list[Parameter]:
                 continue
 
             # Fetch `field` arguments if any.
-            field_args = _field_arguments(member)
+            field_call_args = _field_arguments(member)
+            is_field_call = field_call_args is not None
+            field_args = field_call_args or {}
 
             # Parameter not added to `__init__`, skip it.
             if field_args.get("init") == "False":
@@ -120,7 +124,7 @@ def _dataclass_parameters(class_: Class) -> list[Parameter]:
             if "default_factory" in field_args:
                 default = ExprCall(function=field_args["default_factory"], arguments=[])
             else:
-                default = field_args.get("default", None if field_args else member.value)
+                default = field_args.get("default", None if is_field_call else member.value)
 
             # Add parameter to the list.
             parameters.append(
